@@ -123,6 +123,11 @@ class Violation(Exception):
     """Raised inside a Hypothesis body; carries nothing, the context remembers the case."""
 
 
+class AbortRun(KeyboardInterrupt):
+    """Raised after a confirmed wall-clock hang: every further evaluation (and above all shrinking) would cost the full
+    time limit again, so the task records the case as it is and stops. Hypothesis re-raises KeyboardInterrupt at once."""
+
+
 class Ctx:
     SAMPLE_CAP = 6
 
@@ -202,6 +207,9 @@ class Ctx:
         """Hypothesis style: raise so that the library shrinks towards a minimal case of this signature."""
         if self._known(signature):
             return
+        if signature.endswith('@wall-clock'):
+            self.report(signature, case, message)
+            raise AbortRun(signature)
         if signature in self.excluded:
             self.labels['stepped-over:' + signature] += 1
             return
@@ -275,6 +283,9 @@ def drive(ctx, strategy, body, max_examples, salt='', rounds=5, shrink=True):
 
         try:
             test()
+        except AbortRun:
+            ctx.note('task stopped after a confirmed wall-clock hang (every further evaluation would cost the full limit)')
+            break
         except Violation:
             sig, case, msg = ctx._last
             ctx.report(sig, case, msg)
@@ -299,6 +310,8 @@ def drive_machine(ctx, machine_factory, max_examples, steps, salt='', rounds=4, 
         machine = hseed(derive_seed(ctx.seed, ctx.prop, ctx.task, salt, rnd))(machine_factory())
         try:
             run_state_machine_as_test(machine, settings=hyp_settings(max_examples, steps, shrink=shrink))
+        except AbortRun:
+            break
         except Violation:
             sig, case, msg = ctx._last
             ctx.report(sig, case, msg)
@@ -338,8 +351,16 @@ def run_property(mod, prop, tier, seed):
         results = [_run_task(a) for a in args]
     else:
         mp = multiprocessing.get_context('fork')
+        # backstop: a check that cannot finish (e.g. the code under test hangs inside C code where no step is counted)
+        # is inconclusive - exit 2 - never a verdict
+        limit = float(os.environ.get('VERIF_TIMEOUT') or (2400 if tier == 'quick' else 6 * 3600))
         with mp.Pool(nproc, maxtasksperchild=1) as pool:
-            results = list(pool.imap_unordered(_run_task, args, chunksize=1))
+            pending = pool.map_async(_run_task, args, chunksize=1)
+            try:
+                results = pending.get(timeout=limit)
+            except multiprocessing.TimeoutError:
+                pool.terminate()
+                results = [('harness', f'wall-clock backstop of {limit:.0f}s reached: run is inconclusive')]
     for status, payload in results:
         if status == 'ok':
             total.merge(payload)
